@@ -253,8 +253,10 @@ Section Parse.
     | Some TEncoding => if encoding_lookup_raises vtxt then Err ECodec name
                         else Ok (VStr (normalise_encoding_name vtxt))
     | Some TList => Err ETypeError name         (* list(name, vtxt) *)
-    | Some TCallCrash => Err ETypeError name
-    | Some TDefer => Err EAssertion name
+    | Some TCallCrash => Err ETypeError name    (* type(name, value), dict(name, value) *)
+    (* since f805503ef "<name> directive cannot be set from a string" (ValueError) for the deferred
+       directives and for those whose type is NoneType (was: "assert False" / NoneType(name, value)) *)
+    | Some TDefer => Err ENotSettable name
     end.
 
   (* ---------- parse_directive_list ---------- *)
